@@ -76,10 +76,27 @@ func (s *CertPool) findPotentialParents(cert *Certificate) []int {
 	if len(cert.AuthorityKeyId) > 0 {
 		candidates = s.bySubjectKeyId[string(cert.AuthorityKeyId)]
 	}
+	byName := s.byName[string(cert.RawIssuer)]
 	if len(candidates) == 0 {
-		candidates = s.byName[string(cert.RawIssuer)]
+		return byName
 	}
-	return candidates
+	// A key-id match must not hide certificates that match by name only: the
+	// real issuer may have no subject key id while another certificate with
+	// the same key has one.
+	all := append([]int(nil), candidates...)
+	for _, n := range byName {
+		dup := false
+		for _, c := range candidates {
+			if c == n {
+				dup = true
+				break
+			}
+		}
+		if !dup {
+			all = append(all, n)
+		}
+	}
+	return all
 }
 
 func (s *CertPool) contains(cert *Certificate) bool {
